@@ -452,3 +452,47 @@ Definition pipe_back (p : pparams) (planes : list (list Z)) : list Z :=
 (* ===== pipe_decode_tile: the tile's packet bytes -> pixel bytes ===== *)
 Definition pipe_decode_tile (p : pparams) (tile : list Z) : outcome (list Z) :=
   obind (pipe_dec_planes p tile) (fun planes => Ok (pipe_back p planes)).
+
+(* ------------------------------------------------------------------------------------ *)
+(* the whole codestream (buildCodestream for this configuration): SOC, SIZ, COD, QCD, the
+   version COM, one tile-part (SOT with Psot, SOD, packets), EOC.  SIZ and COD payloads are the
+   writers of Framing.FrmWriters; QCD (writeQCD, lossless: Sqcd = guardBits << 5, one byte
+   expn << 3 per subband), writeVersionCOM and the SOT of writeTile are modelled here. *)
+Require V.Framing.FrmWriters.
+Module W := V.Framing.FrmWriters.
+
+(* log2 (a loop of halvings) on the power-of-two code-block sizes *)
+Definition cb_log2 (n : Z) : Z := Z.log2 n.
+
+(* quantizationInfo().expn: resolution 0, then HL, LH, HH of every resolution *)
+Definition qcd_expn (p : pparams) : list Z :=
+  (pp_prec p + log2_gain 0 0) ::
+  flat_map (fun r => [pp_prec p + log2_gain r 1; pp_prec p + log2_gain r 2; pp_prec p + log2_gain r 3])
+           (map (fun i => i + 1) (G.zrange (pp_levels p))).
+
+Definition qcd_payload (p : pparams) : list Z :=
+  wrapU 8 (Z.shiftl 2 5) :: map (fun e => wrapU 8 (Z.shiftl e 3)) (qcd_expn p).
+
+(* "Created by OpenJPEG version 2.5.4" *)
+Definition version_com : list Z :=
+  [0; 1; 67; 114; 101; 97; 116; 101; 100; 32; 98; 121; 32; 79; 112; 101; 110; 74; 80; 69; 71; 32; 118; 101;
+   114; 115; 105; 111; 110; 32; 50; 46; 53; 46; 52].
+
+Definition pipe_main_header (p : pparams) : list Z :=
+  W.write_marker 65359                                                          (* SOC *)
+  ++ W.j2k_siz_segment false (pp_w p) (pp_h p) 0 0 (pp_nc p) (pp_prec p) (pp_signed p)
+  ++ W.write_segment 65362 (W.j2k_cod_payload (pp_order p) 1 (pp_mct p && (pp_nc p >=? 3)) (pp_levels p)
+                              (cb_log2 (pp_cbw p) - 2) (cb_log2 (pp_cbh p) - 2) false true)
+  ++ W.write_segment 65372 (qcd_payload p)
+  ++ W.write_segment 65380 version_com.
+
+(* writeTile for tile 0: SOT (Lsot = 10, Isot = 0, Psot = len + 14, TPsot = 0, TNsot = 1), SOD *)
+Definition pipe_codestream (p : pparams) (tile : list Z) : list Z :=
+  pipe_main_header p
+  ++ W.write_marker 65424 ++ W.be16_bytes 10 ++ W.be16_bytes 0 ++ W.be32_bytes (zlen tile + 14) ++ [0; 1]
+  ++ W.write_marker 65427 ++ tile
+  ++ W.write_marker 65497.                                                      (* EOC *)
+
+(* ===== Encoder.Encode: pixel bytes -> codestream ===== *)
+Definition pipe_encode (p : pparams) (pix : list Z) : outcome (list Z) :=
+  obind (pipe_encode_tile p pix) (fun tile => Ok (pipe_codestream p tile)).
